@@ -39,8 +39,9 @@ type Step struct {
 
 // Case is a setup state plus a step sequence.
 type Case struct {
-	Setup string `json:"setup"`
-	Steps []Step `json:"steps"`
+	Setup string    `json:"setup"`
+	Steps []Step    `json:"steps"`
+	Spin  *SpinCase `json:"spin,omitempty"` // spinning scenario (spin_test.go); Setup/Steps unused
 }
 
 func TestMain(m *testing.M) {
@@ -297,6 +298,18 @@ func short(s string) string {
 }
 
 func runCase(c Case) (fail *hx.Failure) {
+	if c.Spin != nil {
+		nlines := 0
+		for _, cl := range c.Spin.Clients {
+			nlines += len(cl)
+		}
+		// commands meeting threads which execute statements: a state the
+		// repository's tests never issue any command in
+		key := fmt.Sprintf("spin|%d|%v", c.Spin.Threads, c.Spin.Clients)
+		hx.E.Case(nlines > 0, key, "setup.spin")
+		hx.E.Sample(key, map[string]interface{}{"setup": "spin", "spin": c.Spin})
+		return runSpin(c)
+	}
 	s := newSession()
 	defer s.close()
 
@@ -474,7 +487,7 @@ func TestRegress(t *testing.T) { hx.Regress(t, runCase) }
 func assume() {
 	hx.E.Assume("lock-held rule: HandleInput(\"status\") only takes the debugger's RWMutex for reading (ecalDebugger.Status), HandleInput(\"rmbreak <unused source>\") only takes it for writing (RemoveBreakPoint) and changes nothing; neither waits on a condition nor calls into a thread, and suspended threads do not hold that lock while they wait (VisitState, VisitStepInState and VisitStepOutState release it before cond.Wait); if one of the two has not answered after 5 s while the harness issues no other command, a debugger lock is held for good. Every other call into the debugger is bounded the same way (signature hang:<what>)")
 	hx.E.Assume("commands are issued from one goroutine and only at quiescent points: every program thread is finished, inside the harness' blocking Go function, or parked in sync.Cond.Wait below a debugger frame (read from a goroutine dump), so the lost-wake-up window between publishing 'suspended' and waiting (property C15) is not entered")
-	hx.E.Assume("StopThreads is only called with at most one suspended thread (it iterates the thread table without the lock: data races are outside C16)")
+	hx.E.Assume("command x state scenario: StopThreads is only called at quiescent points; commands which meet threads that are executing statements are the subject of the spinning scenario (TestPropSpin)")
 	hx.E.Assume("program threads are started the way cli/tool/interpret.go does: Eval on a new thread id, RecordThreadFinished deferred")
 }
 
